@@ -13,3 +13,4 @@ def run(ck):
     region.r7_6_previous_band_updates(ck, P)
     region.r_equality_sides(ck, P, 'C07-R7')
     region.r7_8_range_test_siblings(ck, P)
+    region.r7_9_word_skip_depends_on_run_state(ck, P)
